@@ -21,23 +21,24 @@ type BeaconEnv struct {
 	Params beacontypes.Params
 }
 
-func AnyBeaconParams() beacontypes.Params {
+func AnyBeaconParams(tag string) beacontypes.Params {
 	return beacontypes.Params{
-		FeeRegister:         rt.U64("p.feeRegister"),
-		FeeRecord:           rt.U64("p.feeRecord"),
-		FeePurchaseStorage:  rt.U64("p.feePurchase"),
+		FeeRegister:         rt.U64(tag + ".feeRegister"),
+		FeeRecord:           rt.U64(tag + ".feeRecord"),
+		FeePurchaseStorage:  rt.U64(tag + ".feePurchase"),
 		Denom:               "nund",
-		DefaultStorageLimit: rt.U64("p.defaultLimit"),
-		MaxStorageLimit:     rt.U64("p.maxLimit"),
+		DefaultStorageLimit: rt.U64(tag + ".defaultLimit"),
+		MaxStorageLimit:     rt.U64(tag + ".maxLimit"),
 	}
 }
 
-func NewBeaconEnv(now time.Time) *BeaconEnv {
-	e := NewEnv(now, false)
+func NewBeaconEnv(now time.Time) *BeaconEnv { return NewBeaconEnvOn(NewEnv(now, false), "p") }
+
+func NewBeaconEnvOn(e *Env, tag string) *BeaconEnv {
 	key := storetypes.NewKVStoreKey(beacontypes.StoreKey)
 	k := beaconkeeper.NewKeeper(key, rt.Codec(), Authority())
 	be := &BeaconEnv{Env: e, K: k, Key: key}
-	be.Params = AnyBeaconParams()
+	be.Params = AnyBeaconParams(tag)
 	rt.Assume(be.Params.Validate() == nil)
 	_ = k.SetParams(e.Ctx, be.Params)
 	return be
